@@ -81,13 +81,19 @@ func (c *Ctx) Check(construct string, pos token.Pos, ok bool, detail string) boo
 	return ok
 }
 
-func (c *Ctx) Pass(construct string, pos token.Pos, detail string) { c.add(construct, pos, Discharged, detail) }
-func (c *Ctx) Fail(construct string, pos token.Pos, detail string) { c.add(construct, pos, Violated, detail) }
+func (c *Ctx) Pass(construct string, pos token.Pos, detail string) {
+	c.add(construct, pos, Discharged, detail)
+}
+func (c *Ctx) Fail(construct string, pos token.Pos, detail string) {
+	c.add(construct, pos, Violated, detail)
+}
 func (c *Ctx) Undecided(construct string, pos token.Pos, detail string) {
 	c.add(construct, pos, Undecided, detail)
 }
 
-func (c *Ctx) Note(format string, a ...interface{}) { c.Notes = append(c.Notes, fmt.Sprintf(format, a...)) }
+func (c *Ctx) Note(format string, a ...interface{}) {
+	c.Notes = append(c.Notes, fmt.Sprintf(format, a...))
+}
 
 func (c *Ctx) sawFunc(name string) {
 	if c.funcs == nil {
